@@ -93,6 +93,19 @@ class SingleMarker(BaseMarker):
         raise NotImplementedError
 
 
+def _quote(value: str) -> str:
+    """The marker string literal that packaging reads back as ``value``.
+
+    packaging tokenises ``'...'`` or ``"..."`` (no escaped quote inside) and then
+    evaluates the token as a Python string literal: a backslash has to be doubled, and
+    a value containing a double quote is written in single quotes.
+    """
+    value = value.replace("\\", "\\\\").replace("\n", "\\n").replace("\r", "\\r")
+    if '"' in value and "'" not in value:
+        return f"'{value}'"
+    return '"' + value.replace('"', "\\x22") + '"'
+
+
 @dataclass(unsafe_hash=True, **DATACLASS_ARGS)
 class MarkerExpression(SingleMarker):
     name: str
@@ -161,8 +174,8 @@ class MarkerExpression(SingleMarker):
 
     def __str__(self) -> str:
         if self.reversed:
-            return f'"{self.value}" {get_reflect_op(self.op)} {self.name}'
-        return f'{self.name} {self.op} "{self.value}"'
+            return f"{_quote(self.value)} {get_reflect_op(self.op)} {self.name}"
+        return f"{self.name} {self.op} {_quote(self.value)}"
 
     def __and__(self, other: t.Any) -> BaseMarker:
         from dep_logic.markers.multi import MultiMarker
@@ -235,7 +248,7 @@ class EqualityMarkerUnion(SingleMarker):
     values: OrderedSet[str]
 
     def __str__(self) -> str:
-        return " or ".join(f'{self.name} == "{value}"' for value in self.values)
+        return " or ".join(f"{self.name} == {_quote(value)}" for value in self.values)
 
     def replace(self, values: OrderedSet[str]) -> BaseMarker:
         if not values:
@@ -307,7 +320,7 @@ class InequalityMultiMarker(SingleMarker):
     values: OrderedSet[str]
 
     def __str__(self) -> str:
-        return " and ".join(f'{self.name} != "{value}"' for value in self.values)
+        return " and ".join(f"{self.name} != {_quote(value)}" for value in self.values)
 
     def replace(self, values: OrderedSet[str]) -> BaseMarker:
         if not values:
